@@ -27,7 +27,10 @@ type Prop struct {
 	// Floors lists the observation classes that must have been seen at least
 	// once; a run that missed one is inconclusive (the monitor did not see what
 	// it claims to watch).
-	Floors      []string
+	Floors []string
+	// SelfCheck lists classes that signal a broken reference (e.g. the model
+	// disagreeing with the standard library); seeing one makes the run inconclusive.
+	SelfCheck   []string
 	Assumptions []string
 	// Race marks monitors that must run in the -race build.
 	Race bool
